@@ -1,5 +1,7 @@
 """C01 - no stale derived state.  Spec: spec/Scene.tla.
 
+(T) random long histories recorded from the real scene (with the callbacks each call notified) are validated by TLC
+    against the specification's actions and wiring table (Trace_Scene.tla).
 (R) every edge TLC explores (histories of public mutators interleaved with observations, from a freshly
     built and from a fully observed scene) is replayed on a real World/Plasma/Beam/Laser scene with mock
     atomic data; afterwards every observation (3 pairs of sight lines, beam density / direction, plasma
@@ -140,6 +142,8 @@ def run(v):
             v.violation(x["sig"], x["detail"], r)
     v.add_cases(len(edges), keys=[json.dumps(r["h"]) for r in edges])
     v.sample({"history": edges[len(edges) // 3]["h"], "final_cfg_differs_from_default_in": {k: x for k, x in edges[len(edges) // 3]["cfg"].items() if x != 1}})
+    from . import c01_trace
+    c01_trace.run(v)
     v.notes["edges_per_last_action"] = ops
     v.notes["histories_with_violation"] = len(failed)
     v.assumptions += ["mock atomic data with constant pairwise-distinct rates; two concrete values per parameter (mbt/scene.py); sensitivity audit passed for every parameter",
@@ -150,21 +154,16 @@ def run(v):
 
 
 def selftest():
+    """a valid edge is accepted; the same history with a corrupted final configuration is rejected; and an observation of a
+    deliberately stale scene (fresh-scene oracle for another configuration) is reported"""
     rec = {"h": [{"op": "init", "observed": True}, {"op": "set", "p": "B_energy", "v": 2}], "cfg": dict(S.DEFAULT, B_energy=2)}
     good = replay(rec, None)
-    # swapped adapter mapping: the adapter sets the power where the spec says energy
-    orig = S.SCALAR["B_energy"]
-    S.SCALAR["B_energy"] = S.SCALAR["B_power"]
     try:
-        _FRESH.clear()
-        bad = None
-        try:
-            bad = replay(rec, None)
-        except core.MachineryError:
-            bad = ["machinery"]
-    finally:
-        S.SCALAR["B_energy"] = orig
-        _FRESH.clear()
-    ok = not good and bool(bad)
-    print("C01 selftest:", "ok" if ok else "FAILED", good[:1], str(bad)[:200])
+        bad = replay(dict(rec, cfg=dict(S.DEFAULT, B_power=2)), None)
+    except core.MachineryError:
+        bad = ["configuration bookkeeping mismatch"]
+    # staleness oracle: compare a scene in the default configuration with the fresh observations of another one
+    stale = _diff(S.observe(S.build(S.DEFAULT)), fresh_obs(dict(S.DEFAULT, P_comp=2)))
+    ok = not good and bool(bad) and bool(stale)
+    print("C01 selftest:", "ok" if ok else "FAILED", good[:1], str(bad)[:80], stale[:3])
     return 0 if ok else 2
